@@ -164,11 +164,17 @@ fn code_of(e: anyhow::Error) -> u32 {
         Some(ae) => ae.exit_code().value(),
         None => 20,
     };
-    let real = e.downcast_default(ExitCode::USR_ILLEGAL_STATE, "").exit_code().value();
+    let ae = e.downcast_default(ExitCode::USR_ILLEGAL_STATE, "");
+    let real = ae.exit_code().value();
     if real != plain {
         MAPPING_DIFFERS.fetch_add(1, Ordering::Relaxed);
     }
+    LAST_ERR.with(|l| *l.borrow_mut() = ae.msg().to_string());
     real
+}
+thread_local! {
+    /// message of the last error (for the error samples in stats.extra)
+    static LAST_ERR: std::cell::RefCell<String> = const { std::cell::RefCell::new(String::new()) };
 }
 
 fn load_table<'a>(w: &World<'a>) -> Sectors<'a, MemoryBlockstore> {
@@ -489,6 +495,15 @@ fn run_op(w: &mut World, op: &Op, stats: &mut Stats) -> (u32, Vec<String>) {
             restore(w);
             if c & VALIDATE_FLAG != 0 {
                 bump(stats, &format!("validate_state_rejected_{}", kind(op)));
+            } else {
+                // keep the first message seen per (kind, code, message shape) as documentation of the error paths
+                let msg = LAST_ERR.with(|l| std::mem::take(&mut *l.borrow_mut()));
+                let shape: String = msg.chars().filter(|ch| !ch.is_ascii_digit()).take(140).collect();
+                let t = if CASE_TAINTED.load(Ordering::Relaxed) { "err_after_misuse" } else { "err" };
+                let key = format!("{}_{}_{}: {}", t, kind(op), c, shape.trim_start_matches(": "));
+                if stats.extra.len() < 400 {
+                    bump(stats, &key);
+                }
             }
             (c & !VALIDATE_FLAG, vec![])
         }
@@ -630,19 +645,24 @@ struct GenCtx {
     age: i64,
 }
 /// In the actor the fault expiration is `deadline.last() + fault_max_age`, so it never decreases from one
-/// call to the next (see `decreasing_fault_expiration`).  Mostly monotone, rarely arbitrary.
-fn gen_fault_exp(r: &mut Prng, v: &DView, cur: i64, g: &GenCtx) -> i64 {
+/// call to the next; process_deadline_end relies on that (see `decreasing_fault_expiration`).  `strict` = the op
+/// is a process_deadline_end: mostly monotone, rarely arbitrary.
+fn gen_fault_exp(r: &mut Prng, v: &DView, cur: i64, g: &GenCtx, strict: bool) -> i64 {
     let floor = g.max_fe.unwrap_or(i64::MIN);
     let ks = all_queue_keys(v);
+    let roll = r.below(100);
+    if roll < if strict { 93 } else { 80 } {
+        return (cur + g.age + if r.chance(30) { r.range(0, 12) } else { 0 }).max(floor);
+    }
     match r.below(100) {
-        0..=90 => (cur + g.age + if r.chance(30) { r.range(0, 12) } else { 0 }).max(floor),
         // a jump ahead
-        91..=93 => (if r.chance(50) { 200 + r.range(0, 50) } else { cur + g.age + r.range(10, 60) }).max(floor),
+        0..=29 => (if r.chance(50) { 200 + r.range(0, 50) } else { cur + g.age + r.range(10, 60) }).max(floor),
         // negative: the quantised epoch is no AMT key (rejected whenever something has to be scheduled)
-        94..=96 => -1 - r.range(0, 80),
+        30..=54 => -1 - r.range(0, 80),
         // arbitrary, possibly smaller than before
-        97 => cur - r.range(0, 10),
-        98 if !ks.is_empty() => *r.pick(&ks) + r.range(-1, 1),
+        55..=69 => cur - r.range(0, 10),
+        70..=84 if !ks.is_empty() => *r.pick(&ks) + r.range(-1, 1),
+        70..=89 => cur + r.range(1, 30),
         _ => r.range(0, 130),
     }
 }
@@ -885,23 +905,23 @@ fn gen_op(r: &mut Prng, v: &DView, cur: &mut i64, size: SectorSize, psize: u64, 
     // until the deadline ends
     if !v.posted.is_empty() && r.chance(45) {
         if !unposted.is_empty() && r.chance(50) {
-            return Op::RecordProven { fault_exp: gen_fault_exp(r, v, cur, g), posts: gen_posts(r, v, &needs_post) };
+            return Op::RecordProven { fault_exp: gen_fault_exp(r, v, cur, g, false), posts: gen_posts(r, v, &needs_post) };
         }
-        return Op::ProcessDeadlineEnd { fault_exp: gen_fault_exp(r, v, cur, g) };
+        return Op::ProcessDeadlineEnd { fault_exp: gen_fault_exp(r, v, cur, g, true) };
     }
     if !needs_post.is_empty() && r.chance(25) {
-        return Op::RecordProven { fault_exp: gen_fault_exp(r, v, cur, g), posts: gen_posts(r, v, &needs_post) };
+        return Op::RecordProven { fault_exp: gen_fault_exp(r, v, cur, g, false), posts: gen_posts(r, v, &needs_post) };
     }
     let live_total: usize = v.parts.iter().map(|(_, p)| p.live().len()).sum();
     let roll = if live_total == 0 && !fresh_nums(v).is_empty() && r.chance(60) { 0 } else { r.below(100) };
     match roll {
         0..=17 => gen_add(r, v, cur, size, psize),
-        18..=25 => Op::RecordProven { fault_exp: gen_fault_exp(r, v, cur, g), posts: gen_posts(r, v, &needs_post) },
-        26..=29 => Op::ProcessDeadlineEnd { fault_exp: gen_fault_exp(r, v, cur, g) },
+        18..=25 => Op::RecordProven { fault_exp: gen_fault_exp(r, v, cur, g, false), posts: gen_posts(r, v, &needs_post) },
+        26..=29 => Op::ProcessDeadlineEnd { fault_exp: gen_fault_exp(r, v, cur, g, true) },
         30..=39 => {
             // popping fails while a partition that is due has unproven sectors or pending recoveries
             if !needs_post.is_empty() && r.chance(50) {
-                return Op::RecordProven { fault_exp: gen_fault_exp(r, v, cur, g), posts: gen_posts(r, v, &needs_post) };
+                return Op::RecordProven { fault_exp: gen_fault_exp(r, v, cur, g, false), posts: gen_posts(r, v, &needs_post) };
             }
             let ks = all_queue_keys(v);
             let until = match r.below(100) {
@@ -921,7 +941,7 @@ fn gen_op(r: &mut Prng, v: &DView, cur: &mut i64, size: SectorSize, psize: u64, 
             };
             Op::Terminate { epoch, psm: gen_psm(r, v, PK::Term) }
         }
-        51..=61 => Op::RecordFaults { fault_exp: gen_fault_exp(r, v, cur, g), psm: gen_psm(r, v, PK::Fault) },
+        51..=61 => Op::RecordFaults { fault_exp: gen_fault_exp(r, v, cur, g, false), psm: gen_psm(r, v, PK::Fault) },
         62..=70 => Op::DeclareRecovered { psm: gen_psm(r, v, PK::Recover) },
         71..=78 => {
             // compaction is refused while early terminations are pending
@@ -988,12 +1008,14 @@ fn fault_exp_of(op: &Op) -> Option<i64> {
     }
 }
 /// lib.rs always passes `deadline.last() + fault_max_age` of the current (or a later) deadline as fault
-/// expiration, i.e. a non-decreasing sequence.  With a smaller epoch than before, record_missed_post moves
-/// already faulty sectors to an EARLIER queue entry without telling the deadline (it only re-indexes
-/// partitions with new faulty power), and the deadline's expiration index no longer covers the partition.
+/// expiration, i.e. a non-decreasing sequence.  process_deadline_end depends on it: with a smaller epoch than
+/// one used before, record_missed_post moves ALREADY faulty sectors to an earlier queue entry without telling
+/// the deadline (only partitions with NEW faulty power are re-indexed), and the deadline's expiration index no
+/// longer covers the partition.  (record_faults / record_proven_sectors index every partition they reschedule,
+/// whatever the epoch.)
 fn decreasing_fault_expiration(g: &GenCtx, op: &Op) -> bool {
-    match (fault_exp_of(op), g.max_fe) {
-        (Some(fe), Some(m)) => fe < m,
+    match (op, g.max_fe) {
+        (Op::ProcessDeadlineEnd { fault_exp }, Some(m)) => *fault_exp < m,
         _ => false,
     }
 }
@@ -1334,6 +1356,12 @@ fn coverage(stats: &mut Stats, op: &Op, rets: &[String], before: &DView, v: &DVi
 }
 
 // ---------- one case ----------
+/// `--no-fe-taint 1`: keep monitoring after a process_deadline_end with a decreasing fault expiration (to
+/// replay what that does to the deadline's expiration index)
+/// the current case has accepted an op that broke a caller obligation (only used to label error samples)
+static CASE_TAINTED: std::sync::atomic::AtomicBool = std::sync::atomic::AtomicBool::new(false);
+static NO_FE_TAINT: std::sync::atomic::AtomicBool = std::sync::atomic::AtomicBool::new(false);
+
 fn run_case(pc: &DCase, stats: &mut Stats, genr: Option<(&mut Prng, usize)>) -> (Case, Vec<serde_json::Value>) {
     let store = MemoryBlockstore::new();
     let root = Array::<SectorOnChainInfo, MemoryBlockstore>::new_with_bit_width(&store, SECTORS_AMT_BITWIDTH)
@@ -1367,6 +1395,7 @@ fn run_case(pc: &DCase, stats: &mut Stats, genr: Option<(&mut Prng, usize)>) -> 
         let op = match &mut genr { Some((r, _)) => gen_op(r, &v, &mut cur, size, pc.psize, &gctx), None => pc.ops[i].clone() };
         let misuse = caller_misuse(&v, &op);
         let fe_misuse = decreasing_fault_expiration(&gctx, &op);
+        CASE_TAINTED.store(tainted, Ordering::Relaxed);
         let (c, rets) = run_op(&mut w, &op, stats);
         stats.op(kind(&op), c);
         if c == 0 { acc = true } else { rej = true }
@@ -1403,7 +1432,7 @@ fn run_case(pc: &DCase, stats: &mut Stats, genr: Option<(&mut Prng, usize)>) -> 
                 tainted = true;
                 bump(stats, "cases_with_accepted_caller_misuse");
             }
-            if fe_misuse && !tainted {
+            if fe_misuse && !tainted && !NO_FE_TAINT.load(Ordering::Relaxed) {
                 tainted = true;
                 bump(stats, "cases_with_accepted_decreasing_fault_expiration");
             }
@@ -1477,6 +1506,7 @@ fn finish_stats(stats: &mut Stats) {
 fn main() {
     let a = cf::parse_args();
     let mut stats = Stats::default();
+    NO_FE_TAINT.store(a.rest.get("no-fe-taint").map(|x| x == "1").unwrap_or(false), Ordering::Relaxed);
     std::panic::set_hook(Box::new(|_| {}));
     let header = "From VF Require Import Model.Partition Model.Deadline Base.Corr.\nFrom Coq Require Import ZArith List.\nImport ListNotations.\nOpen Scope Z_scope.\n";
     let mut cw = CaseWriter::new(&a.out, header, "dcheck_case", a.shards);
